@@ -42,6 +42,7 @@ theorem good_exec (s : St) (c : Cmd) (g : Good s) (hb : s.issued.length + 1 < W6
       constructor
       · simp [h1]
       · intro i hi
+        dsimp only at hi ⊢
         simp only [List.mem_cons] at hi
         rcases hi with rfl | hi
         · omega
@@ -58,14 +59,14 @@ theorem good_exec (s : St) (c : Cmd) (g : Good s) (hb : s.issued.length + 1 < W6
           · intro h; have := (h4 _ _).2 h; rw [hfree] at this; cases this
         · simp only [hi, hb, if_true, if_false]
           constructor
-          · intro h; have := (h4 _ _).1 h; rw [hb, hl] at this; cases this
+          · intro h; have := (h4 _ _).1 h; rw [hl] at this; cases this
           · intro h; exact absurd (Option.some.inj h).symm hi
         · simp only [hi, hb, if_false]; exact h4 i b
       · intro i b
         simp only [updO_apply]
         by_cases hi : i = s.next
-        · intro _; omega
-        · simp only [hi, if_false]; intro h; have := h5 i b h; omega
+        · intro _; show i < s.next + 1; omega
+        · simp only [hi, if_false]; intro h; have := h5 i b h; show i < s.next + 1; omega
   | del a =>
     simp only [exec]
     cases hl : s.live a with
@@ -86,7 +87,7 @@ theorem good_exec (s : St) (c : Cmd) (g : Good s) (hb : s.issued.length + 1 < W6
           · intro h; have := (h4 _ _).2 h; rw [hobj] at this; exact absurd (Option.some.inj this).symm hb
         · simp only [hi, hb, if_true, if_false]
           constructor
-          · intro h; have := (h4 _ _).1 h; rw [hb, hl] at this; exact absurd (Option.some.inj this).symm hi
+          · intro h; have := (h4 _ _).1 h; rw [hl] at this; exact absurd (Option.some.inj this).symm hi
           · intro h; cases h
         · simp only [hi, hb, if_false]; exact h4 i b
       · intro i b
